@@ -12,7 +12,7 @@ REQUIRED_THEOREMS = [
     'OpusProps.C01.decodeNative_ret', 'OpusProps.C01.decodeNative_ret_pure', 'OpusProps.C01.decodeNative_oracle_args',
     'OpusProps.C01.decodeNative_writes', 'OpusProps.C01.decodeNative_duration', 'OpusProps.C01.decodeNative_plc_duration',
     'OpusProps.C01.decodeNative_error_leaves_state', 'OpusProps.C01.decodeApi_ret',
-    'OpusProps.C01.plc_chunk_recursion_depth',
+    'OpusProps.C01.plc_chunk_recursion_depth', 'OpusProps.C01.msDecode_ret',
 ]
 RULE = ('random call histories on one decoder state (decode of real-encoder packets of all modes/bandwidths/durations, '
         'bit-flipped / truncated / extended / random packets, synthetic framing of every code incl. self-delimited, NULL and '
@@ -38,15 +38,21 @@ ASSUMPTIONS = [
     'float build with VAR_ARRAYS, no DRED / deep PLC / OSCE (the configuration of the baseline build)',
 ]
 TRUSTED = ['oracle contracts for silk_Decode / celt_decode_with_ec_dred / ec_dec_bit_logp / ec_dec_uint listed under assumptions']
-UNPROVED = ['msDecode_writes (write extents of the per-stream copy-out; covered by ASan + canaries in the search)']
-LEVEL_TEXT = ('proof of the control skeleton, partial for the property: for every state satisfying the decoder invariant, every '
-              'packet / NULL, len, frame_size, decode_fec, self_delimited and every oracle behaviour within the contracts, '
-              'opus_decode_native and the three format wrappers return BAD_ARG | BUFFER_TOO_SMALL | INVALID_PACKET or 0 < n <= '
-              'frame_size, never INTERNAL_ERROR, reach no celt_assert of the skeleton, terminate (no loop without progress), pass '
-              'only legal arguments to SILK and CELT, keep every recorded read/write extent inside the caller buffer or the '
-              'scratch buffer allocated for it, return the announced duration = last_packet_duration, and preserve the invariant '
-              '(so all of this holds after any history); multistream control likewise given per-stream results. The SILK/CELT '
-              'synthesis interior and sample finiteness are not modelled (sanitizer-instrumented search only)')
+UNPROVED = ['msDecode_writes (write extents of the per-stream copy-out into the caller buffer and the projection matrix multiply; '
+            'covered by ASan + canaries in the search)',
+            'msDecode_native_contract (that the per-stream calls of the REAL multistream decoder satisfy MsOracleOk follows from '
+            'decodeNative_ret + the C06 packet_offset, but the composition is not stated as one theorem)']
+LEVEL_TEXT = ('proof of the control skeleton, partial for the property: for every state satisfying the decoder invariant (hence, by '
+              'induction, after every history of decode / loss / FEC / reset / gain calls), every packet / NULL, len, frame_size, '
+              'decode_fec, self_delimited and every oracle behaviour within the contracts, opus_decode_native returns exactly '
+              'nativeRet(args) — a pure function of the arguments that is BAD_ARG | BUFFER_TOO_SMALL | INVALID_PACKET or 0 < n <= '
+              'frame_size, never INTERNAL_ERROR —, reaches no celt_assert of the skeleton, terminates (all loops by well-founded '
+              'recursion, recursion depth of opus_decode_frame <= 2), passes only legal arguments to SILK and CELT, keeps every '
+              'recorded read/write extent inside the caller buffer or the scratch buffer allocated for it, returns the announced '
+              'duration = last_packet_duration, leaves the state untouched on error, and preserves the invariant; likewise the '
+              'three format wrappers; the multistream loop never returns INTERNAL_ERROR given per-stream results within the '
+              'single-stream contract. The SILK/CELT synthesis interior, the multistream copy-out and sample finiteness are not '
+              'modelled (sanitizer-instrumented search only)')
 LEVEL_NOTE = ('trusted: Lean kernel; oracle contracts (monitored by the harness wrappers on every explored call); the '
               'correspondence harness (#include of src/opus_decoder.c with the DSP entry points renamed to recording wrappers) '
               'and line protocol; C int modelled as unbounded Int')
